@@ -11,7 +11,6 @@ import struct
 
 from .. import core, real, progs
 from qvm.instrs import op_code_to_instr, op_to_instr
-from qvm.memlayout import get_params_size, get_local_vars_size
 from qbee.utils import Empty
 
 LEAN_MODULE = 'QbeeModel.Props.C09'
@@ -165,8 +164,8 @@ def views(src, o, g):
     main = code._main_routine
     order = [main] + [r for r in routines if r is not main] if main is not None else routines
     for (a, (p, v)), r in zip(frames, order):
-        need_p = get_params_size(r)
-        need_v = get_local_vars_size(r)
+        need_p = sum(own_type_size(comp, t) for t in r.params.values())
+        need_v = sum(own_type_size(comp, t) for t in r.local_vars.values())
         if (p, v) != (need_p, need_v):
             out['problems'].append(('frame-declaration-differs-from-storage', r.name, (p, v), (need_p, need_v)))
     # variable operands within frame / globals
@@ -189,6 +188,21 @@ def views(src, o, g):
     return out
 
 
+def own_type_size(comp, ty):
+    """cells a value of this type occupies, written from the language's storage rules (independent of qvm/memlayout.py):
+    scalar 1; record = sum of its fields; static array = 3 header cells + 2 per dimension + elements; dynamic array 1"""
+    if ty.is_array:
+        if not ty.is_static_array:
+            return 1
+        n = 1
+        for d in ty.array_dims:
+            n *= d.static_ubound - d.static_lbound + 1
+        return 3 + 2 * len(ty.array_dims) + n * own_type_size(comp, ty.array_base_type)
+    if ty.is_user_defined:
+        return sum(own_type_size(comp, ft) for ft in comp.user_types[ty.user_type_name].fields.values())
+    return 1
+
+
 def task(t):
     src, cfgs = t
     return real.big_frame(lambda: [views(src, o, g) for (o, g) in cfgs])
@@ -207,6 +221,10 @@ STRESS = [
     'PRINT 1.5!; 2.5#; 70000; -70000; 32767; -32768\n',
     '\n'.join(f'PRINT "s{i}"' for i in range(300)) + '\n',
     'DIM a(3, 2) AS LONG\na(1, 1) = 5\nSUB p(x AS LONG)\nx = 1\nEND SUB\n',
+    # STATIC routines: named variables live in the globals, the hidden temporaries of FOR / SELECT CASE in the frame
+    'PRINT total%(3)\nCALL classify(2)\nEND\nFUNCTION total% (n%) STATIC\n  FOR i% = 1 TO n%\n    s% = s% + i%\n  NEXT\n  total% = s%\nEND FUNCTION\n'
+    'SUB classify (k%) STATIC\n  SELECT CASE k%\n  CASE 1 TO 3\n    PRINT "low"\n  CASE ELSE\n    PRINT "high"\n  END SELECT\n  calls% = calls% + 1\nEND SUB\n',
+    'CALL w(2)\nEND\nSUB w (n%) STATIC\n  DIM t(2) AS LONG\n  FOR a% = 1 TO n%\n    FOR b% = a% TO n% STEP 1\n      t(1) = t(1) + b%\n    NEXT\n  NEXT\n  PRINT t(1)\nEND SUB\n',
 ]
 
 
